@@ -14,6 +14,7 @@ Rules (all on E1's MIR facts of the current tree):
 import re
 from .. import mir as M
 from .. import dflow as D
+from .. import sandbox as S
 
 EFFECT_RE = re.compile(
     r"^std::(fs|process|net)::|^<std::(fs|process|net)::"
@@ -62,97 +63,30 @@ def run(ctx, res):
     res.extra["functions_analysed"] = len(reach)
 
     # ---- EFFECT-GUARD ------------------------------------------------------------------
-    # per function: effectful call sites (direct), and local calls (for the interprocedural part)
-    direct = {}
-    for p in reach:
-        f = P.funcs[p]
-        for bi, t in f.calls():
-            n = M.callee_name(t)
-            if is_effect(n):
-                direct.setdefault(p, []).append((bi, n, t))
-    n_direct = sum(len(v) for v in direct.values())
-    openers = sum(1 for v in direct.values() for (_, n, _) in v if not PURE_ACCESSORS.search(n))
-
-    def guards(f):
-        return D.field_switches(f, "enforce_sandbox", ENV_ADT)
-
-    def guarded(f, bb):
-        for (sb, ft, tt) in guards(f):
-            if ft is not None and bb in D.edge_dominated(f, sb, ft):
-                return (sb, ft, tt)
-        return None
-
-    # fixpoint: EFFN = functions with an unguarded effectful site (direct or call into EFFN)
     E = P.edges()
-    effn = {}
-    changed = True
-    while changed:
-        changed = False
-        for p in reach:
-            f = P.funcs[p]
-            bad = []
-            for (bi, n, t) in direct.get(p, []):
-                if not guarded(f, bi):
-                    bad.append((bi, n, None))
-            for kind, tgt, bi in E.get(p, []):
-                if kind == "live":
-                    continue
-                if tgt in effn and tgt != p and not guarded(f, bi):
-                    bad.append((bi, tgt, tgt))
-            key = sorted(set((b, n) for b, n, _ in bad))
-            if bad and effn.get(p) != key:
-                effn[p] = key
-                changed = True
-    # report: leaves = unguarded direct effect sites in functions that eval::eval reaches through
-    # unguarded chains
-    live = set()
-    stack = ["eval::eval"] if "eval::eval" in effn else []
-    # eval::eval reaches unguarded effects iff it is in effn; walk unguarded edges
-    seen = set(stack)
-    parent = {}
-    while stack:
-        p = stack.pop()
-        f = P.funcs[p]
-        for kind, tgt, bi in E.get(p, []):
-            if kind == "live" or tgt not in effn or tgt in seen:
-                continue
-            if guarded(f, bi):
-                continue
-            seen.add(tgt)
-            parent[tgt] = p
-            stack.append(tgt)
+    sites, effn, direct = S.classify(P, reach, is_effect)
+    n_direct = len(sites)
+    openers = sum(1 for x in sites if not PURE_ACCESSORS.search(x["callee"]))
+    guards = S.guards
     n_guarded = 0
-    for p, sites in sorted(direct.items()):
-        f = P.funcs[p]
-        for (bi, n, t) in sites:
-            arm = D.arm_label(f, bi, enums={"BuiltInFunctionKind", "BuiltInMethodKind"})
-            key = "%s # %s # %s" % (p, arm or "-", n)
-            g = guarded(f, bi)
-            if g:
-                n_guarded += 1
-                res.ok("EFFECT-GUARD", key, "guarded")
-                res.sample({"site": key, "line": t["span"]["line"], "guard_switch_bb": g[0]})
-                continue
-            if p in seen:
-                chain = [p]
-                while chain[-1] in parent:
-                    chain.append(parent[chain[-1]])
-                chain.reverse()
-                if key in allow:
-                    res.ok("EFFECT-GUARD", key, "allowlisted: " + allow[key][:60])
-                    res.note("allowlisted unguarded effect: %s -- %s" % (key, allow[key]))
-                    continue
-                if PURE_ACCESSORS.search(n):
-                    # an accessor on a handle: unguarded only matters if its opener is unguarded too,
-                    # and that opener is reported on its own.
-                    res.ok("EFFECT-GUARD", key, "accessor (opener reported separately)")
-                    continue
-                res.bad("EFFECT-GUARD", key,
-                        "effectful call %s is reachable from eval::eval without being dominated by the false edge of a "
-                        "switch on Env.enforce_sandbox (path: %s)" % (n, " -> ".join(chain)),
-                        "%s:%d" % (t["span"]["file"], t["span"]["line"]), {"chain": chain, "arm": arm})
-            else:
-                res.ok("EFFECT-GUARD", key, "all call chains from eval::eval are guarded")
+    for x in sites:
+        key, n, t = x["key"], x["callee"], x["term"]
+        if x["status"] == "guarded":
+            n_guarded += 1
+            res.ok("EFFECT-GUARD", key, "guarded")
+            res.sample({"site": key, "line": t["span"]["line"], "guard_switch_bb": x["guard"][0]})
+        elif x["status"] == "chain-guarded":
+            res.ok("EFFECT-GUARD", key, "all call chains from eval::eval are guarded")
+        elif key in allow:
+            res.ok("EFFECT-GUARD", key, "allowlisted: " + allow[key][:60])
+            res.note("allowlisted unguarded effect: %s -- %s" % (key, allow[key]))
+        elif PURE_ACCESSORS.search(n):
+            res.ok("EFFECT-GUARD", key, "accessor (opener reported separately)")
+        else:
+            res.bad("EFFECT-GUARD", key,
+                    "effectful call %s is reachable from eval::eval without being dominated by the false edge of a "
+                    "switch on Env.enforce_sandbox (path: %s)" % (n, " -> ".join(x["chain"])),
+                    "%s:%d" % (t["span"]["file"], t["span"]["line"]), {"chain": x["chain"], "arm": x["arm"]})
     # true-edge obligations for every guard in reachable functions
     n_guards = 0
     for p in sorted(reach):
@@ -163,7 +97,7 @@ def run(ctx, res):
             key = "%s # %s # guard" % (p, arm or "-")
             tre = D.reach_from(f, [tt])
             # (a) no effect reachable from the true edge
-            eff_after = [(bi, n) for (bi, n, t) in direct.get(p, []) if bi in tre]
+            eff_after = [(bi, n) for (bi, n, t) in direct.get(p, []) if bi in tre and not PURE_ACCESSORS.search(n)]
             eff_after += [(bi, tgt) for kind, tgt, bi in E.get(p, []) if kind != "live" and tgt in effn and bi in tre]
             # (b) the true edge builds ForbiddenInSandbox and returns without rejoining the false region
             builds = False
